@@ -327,6 +327,7 @@ func walk(r *simkit.Run, prop string) {
 	var constraintIdx [][2]string // (table, index) pairs that stand for UNIQUE constraints of a foreign database
 	if t.Chance("legacy-start", 1, 3) {
 		legacy := &Sch{}
+		collides := false
 		for i, n := 0, t.Range("legacy-tables", 1, 2); i < n; i++ {
 			tb := g.NewTable(legacy)
 			// Names people give: a table of checks, a table of constraints.
@@ -364,6 +365,26 @@ func walk(r *simkit.Run, prop string) {
 				keep = append(keep, ix)
 			}
 			tb.Idx = keep
+			// A user's own index may carry the very name Atlas derives for a constraint's index
+			// (<table>_<columns>; the engine calls that one sqlite_autoindex_*). C03 only: the exports of
+			// such a database are checked at step 0 and the walk does not go on from it.
+			userIdxCollides := false
+			if prop == "C03" && t.Chance("user-index-named-like-a-constraint-index", 1, 10) {
+				var inl, other *Idx
+				for _, ix := range tb.Idx {
+					switch {
+					case ix.Inline && inl == nil:
+						inl = ix
+					case !ix.Inline && other == nil:
+						other = ix
+					}
+				}
+				if inl != nil && other != nil {
+					other.Name = inl.Name
+					userIdxCollides = true
+				}
+			}
+			collides = collides || userIdxCollides
 			if t.Chance("lower-case-keywords", 1, 3) {
 				tb.LowerKW = true
 			}
@@ -441,6 +462,12 @@ func walk(r *simkit.Run, prop string) {
 				// the database as the foreign DDL left it are checked before anything is applied to it.
 				if prop == "C03" {
 					r.Nontrivial()
+					if collides {
+						r.Probe("legacy-user-index-named-like-a-constraint-index")
+						checkExports(ctx, r, w, dir, 0, "user-index-named-like-a-constraint-index")
+						r.Reclass("exports-wrong/user-index-named-like-a-constraint-index")
+						return
+					}
 					checkExports(ctx, r, w, dir, 0, "foreign-ddl")
 					if r.Failed() {
 						return
